@@ -16,6 +16,7 @@ PROPS = {
  "C04": P("C04", ["Properties_C04.v"], 150, 2000, ["G_st_mul", "G_Xrot", "G_Xtrans", "G_quat_toMatrix", "G_st_inverse"]),
  "C05": P("C05", ["Properties_C05.v"], 150, 1500, ["G_st_apply", "G_st_inverse", "G_st_mul", "G_st_toMatrix"]),
  "C06": P("C06", ["Properties_C06.v"], 150, 1500, ["G_st_apply", "G_crossm", "G_st_mul"]),
+ "C07": P("C07", ["Properties_C07.v"], 150, 1500, ["G_st_mul", "G_st_apply", "G_Xrotx", "G_Xroty", "G_Xrotz", "G_Xtrans"], twin_tol=1e-8),
  "C08": P("C08", ["Properties_C08.v"], 150, 1500, ["G_st_apply", "G_st_applyAdjoint", "G_crossm"]),
  "C09": P("C09", ["Properties_C09.v"], 150, 1500, ["G_st_apply", "G_crossm", "G_st_mul"]),
  "C10": P("C10", ["Properties_C10.v"], 150, 1500, ["G_st_apply"]),
